@@ -8,7 +8,8 @@ NOTE = ('Trusted base: rustc nightly MIR construction and trait resolution; rege
         'tables under scv/tables (oracles quoted from the property statements, external-callee classification, reviewed '
         'discharges); std/chrono/regex/serde behave as documented inside their domains. Assumed: no allocation failure, '
         'no stack exhaustion, user RuleTrait code is outside the analysis. The check decides the structural clauses '
-        'listed in level_claimed.text, not the behaviour as a whole.')
+        'listed in level_claimed.text, not the behaviour as a whole. Functions that are not in the reference inventory '
+        '(scv/tables/functions.txt) and are only called directly are spliced into their callers before the rules run (DESIGN.md E0b).')
 
 CLAIMS = {
     'C01': dict(
@@ -25,7 +26,7 @@ CLAIMS = {
         technique='value-DAG (gated use-def) extraction of parser ladder, fold shape, operator tables; must-pass-through on the CFG',
         ref='DESIGN.md section 5 C02',
         text='Static. Decided clauses: precedence ladder wiring and operator arrays; left fold in parse_binary; char->OperationType->arithmetic tables with operand order; '
-             'guarded division; the two suffix tables agree with 1000^k; implicit + / leading 0 insertion and its guard; every peek..return Ok(non-None) path in src/syntax consumes the token; '
+             'guarded division (the returned term tabulated over finite, +-inf, NaN and overflowing quotients); the two suffix tables agree with 1000^k; implicit + / leading 0 insertion and its guard; every peek..return Ok(non-None) path in src/syntax consumes the token; '
              'stage order of tokinize. G9 a detached prefix sign negates (tabulated on positive, negative and fractional literals), variables / percentages / money get exactly one PrefixUnary wrapper, every numeric DataItem::unary negates on Minus and keeps the value on Plus. Not decided: independence from spacing over all strings, exact f64 results.'),
     'C03': dict(
         technique='dominance / who-may-write / use-def rules over MIR',
@@ -63,7 +64,7 @@ CLAIMS = {
     'C09': dict(
         technique='finite-domain tabulation of the extracted month/year step terms (month 1..12 x count 1..12) against calendar arithmetic; argument wiring; gamma decision tables; scan-shape rule over the parser registries',
         ref='DESIGN.md section 5 C09',
-        text='Static. Decided clauses: D1 the year and month steps of DateItem::calculate, tabulated from their value DAGs over every (month, count) cell, equal calendar arithmetic with the day unchanged (failure classes invalid-month / wrong-year / wrong-month are separate findings); D2 small_date builds the date with the checked constructor from the fields named year / month / day, rejects None, defaults the year to the current year, and every date pattern binds day and month with accepted types; '
+        text='Static. Decided clauses: D1 the date DateItem::calculate hands to its final +/- step, tabulated from the result term of the function over Add/Sub x year/month step x every (month, count) cell, equal calendar arithmetic with the day unchanged (failure classes invalid-month / wrong-year / wrong-month are separate findings); D2 small_date builds the date with the checked constructor from the fields named year / month / day, rejects None, defaults the year to the current year, and every date pattern binds day and month with accepted types; '
              'D3 A to B is the larger minus the smaller of the two stored values, for dates and for times; D4 today / tomorrow / yesterday are today +0 / +1 / -1 days and every language names them; D5 every literal parser iterates over all matches; D6 month table numbering (index+1, stored at number-1, emitted by the parser, printed from month-1); D7 the duration is split by YEAR and MONTH with exact remainders and the remainder is applied with the operation\'s own operator. '
              'L2 every configured month spelling is recognised by the regexes built at load time (shared with C19). Not decided: leap days, day-of-month overflow (31 Jan + 1 month), 30-day months versus calendar months for counts given in days.'),
     'C10': dict(
